@@ -516,6 +516,8 @@ theorem plan_uploadPartCopy (ap : Bool) (sb sk b k uid : Bytes) (part : Int) (c 
     ∀ t ∈ (plan e enc (.uploadPartCopy ap sb sk b k uid part c)).touches,
       P e enc (.uploadPartCopy ap sb sk b k uid part c) t := by
   simp only [plan]
+  split
+  · exact forall_nil
   cases hpu : parseUuid uid with
   | none => exact forall_nil
   | some u =>
